@@ -167,4 +167,77 @@ theorem hprime_eq_rfc (T : Nat) (a : Bytes) (hT : 1 ≤ T) : blake2bHashGo T a =
         have hρ64 : ρ = 64 := by omega
         rw [(rel_write_sum b2' 64 v' h2).1, ← hv1, hfin, hρ64, List.append_assoc]
 
+/-! ## the reference block: indexAlpha / phi against RFC 9106 §3.4 -/
+
+/-- size of the reference area |W| (RFC 9106 §3.4.1.x; the case analysis of the reference
+    implementation's `index_alpha`), lane length = 4·seg -/
+def refAreaRFC (seg n slice index : Nat) (same : Bool) : Nat :=
+  if n = 0 then
+    if slice = 0 then index - 1                                   -- first slice: own lane, all but the previous block
+    else if same then slice * seg + index - 1                     -- finished slices + this segment, minus previous
+    else slice * seg - (if index = 0 then 1 else 0)               -- finished slices of another lane
+  else
+    if same then 3 * seg + index - 1                              -- lane_length − segment_length + index − 1
+    else 3 * seg - (if index = 0 then 1 else 0)
+
+/-- start position of the area inside the lane: 0 in the first pass, else the slice after the current one -/
+def startRFC (seg n slice : Nat) : Nat := if n = 0 then 0 else ((slice + 1) % 4) * seg
+
+theorem beq_zero_32 (x : UInt32) : (x == 0) = decide (x.toNat = 0) := by
+  by_cases h : x.toNat = 0
+  · have : x = 0 := UInt32.toNat_inj.mp h
+    simp [this]
+  · have : x ≠ 0 := fun e => h (by simp [e])
+    simp [h, this]
+
+theorem slice_cases (slice : UInt32) (hs : slice.toNat < 4) : slice = 0 ∨ slice = 1 ∨ slice = 2 ∨ slice = 3 := by
+  have : slice.toNat = 0 ∨ slice.toNat = 1 ∨ slice.toNat = 2 ∨ slice.toNat = 3 := by omega
+  rcases this with h | h | h | h
+  · exact Or.inl (UInt32.toNat_inj.mp h)
+  · exact Or.inr (Or.inl (UInt32.toNat_inj.mp h))
+  · exact Or.inr (Or.inr (Or.inl (UInt32.toNat_inj.mp h)))
+  · exact Or.inr (Or.inr (Or.inr (UInt32.toNat_inj.mp h)))
+
+set_option maxHeartbeats 1000000 in
+/-- first pass: the uint32 computation of `m, s` in indexAlpha is |W| and start of RFC 9106, and |W| ≥ 1.
+    (in the first slice the code always passes `same = true` and starts at index 2) -/
+theorem areaSize_pass0 (seg n slice index : UInt32) (same : Bool) (hn : (n == 0) = true)
+    (hseg : 2 ≤ seg.toNat) (hseg4 : 4 * seg.toNat < 4294967296) (hs : slice.toNat < 4)
+    (hi : index.toNat < seg.toNat) (hfirst : slice = 0 → same = true ∧ 2 ≤ index.toNat) :
+    (areaSize seg n slice index same).1.toNat = refAreaRFC seg.toNat 0 slice.toNat index.toNat same ∧
+    (areaSize seg n slice index same).2.toNat = startRFC seg.toNat 0 slice.toNat ∧
+    1 ≤ (areaSize seg n slice index same).1.toNat := by
+  have hidx := beq_zero_32 index
+  have hsc := slice_cases slice hs
+  clear hs
+  rcases hsc with rfl | rfl | rfl | rfl
+  · obtain ⟨rfl, h2⟩ := hfirst rfl
+    clear hfirst
+    have h0 : ¬ index.toNat = 0 := by omega
+    simp only [areaSize, refAreaRFC, startRFC, syncPoints, hidx, hn]
+    simp [h0, UInt32.toNat_add, UInt32.toNat_mul, UInt32.toNat_sub]
+    omega
+  all_goals
+    clear hfirst
+    cases same <;> by_cases h0 : index.toNat = 0 <;>
+    simp only [areaSize, refAreaRFC, startRFC, syncPoints, hidx, hn] <;>
+    simp [h0, UInt32.toNat_add, UInt32.toNat_mul, UInt32.toNat_sub] <;> omega
+
+set_option maxHeartbeats 1000000 in
+/-- later passes: `m = 3·seg (+ index) (− 1)`, `s = ((slice+1) mod 4)·seg` -/
+theorem areaSize_later (seg n slice index : UInt32) (same : Bool) (hn : (n == 0) = false)
+    (hseg : 2 ≤ seg.toNat) (hseg4 : 4 * seg.toNat < 4294967296) (hs : slice.toNat < 4)
+    (hi : index.toNat < seg.toNat) :
+    (areaSize seg n slice index same).1.toNat = refAreaRFC seg.toNat 1 slice.toNat index.toNat same ∧
+    (areaSize seg n slice index same).2.toNat = startRFC seg.toNat 1 slice.toNat ∧
+    1 ≤ (areaSize seg n slice index same).1.toNat := by
+  have hidx := beq_zero_32 index
+  have hsc := slice_cases slice hs
+  clear hs
+  rcases hsc with rfl | rfl | rfl | rfl
+  all_goals
+    cases same <;> by_cases h0 : index.toNat = 0 <;>
+    simp only [areaSize, refAreaRFC, startRFC, syncPoints, hidx, hn] <;>
+    simp [h0, UInt32.toNat_add, UInt32.toNat_mul, UInt32.toNat_sub] <;> omega
+
 end XC.C15
